@@ -1,10 +1,10 @@
 """C05 — units run in order; the first error aborts the message and is reported once."""
 from common import *
-import treegen, lexgen
+import treegen, lexgen, statuslib
 
 PID = "C05"
 TARGETS = ["Run.vo", "Tree_proofs.vo"]
-IMPORTS = "From VF Require Import Base Show Gen_Errors Lexer Response Conv Tree Scripted Run."
+IMPORTS = "From VF Require Import Base Show Gen_Errors Status Contrib Lexer Response Conv Tree Scripted Run."
 ALLOWED_AXIOMS = []
 PROFILES = ["debug"]
 RULE = ("messages of 1..6 units on random trees; a failure is injected at a random unit position and of a random kind: "
@@ -12,7 +12,10 @@ RULE = ("messages of 1..6 units on random trees; a failure is injected at a rand
         "(corrupted byte inside unit i), a response item that fails to format (non-ASCII string, empty list, failing "
         "ResponseData) at a random write position, response buffer exhaustion (ArrayVec of a capacity smaller than the "
         "response); compared: returned error (exact value incl. texts), the error hook's log (exactly that error once, or "
-        "nothing on success), the ordered invocation log; non-trivial = message of >= 2 units in which a handler ran")
+        "nothing on success), the ordered invocation log; non-trivial = message of >= 2 units in which a handler ran.  "
+        "Second stream: the library's OWN mandated handlers (scpi-contrib: common commands incl. *TST? with failing self-test, "
+        "STATus, SYSTem:ERRor) on a device whose error hook counts its calls: histories of multi-unit messages, compared with "
+        "the full-stack model on status, response, error queue and cumulative hook-call count")
 ASSUMPTIONS = ["Device::handle_error of the harness' device records its argument; nothing else calls it"]
 MISMATCH_WHY = "returned error / error-hook calls / handler invocation order differ from the proved model (C05)"
 CAPS = [0, 1, 2, 3, 5, 8, 13, 21, 40]
@@ -25,6 +28,9 @@ def corpus():
     msgs = [b"PRE;FAIL;POST", b"PRE?;FAIL?;POST?", b"PRE;BADFIRST?;POST", b"FAIL @", b"FAIL 1 2", b"FAIL 'abc", b"LIM 200,,1", b"LIM;POST", b"LIM 1,2,3;POST",
             b"PRE;NOPE;POST", b"PRE;POST;\x80", b"PRE?;POST?", b"PRE;POST", b"FAIL;FAIL", b"PRE?;LIM? 1,2;POST?"]
     out = [treegen.case_line("v", sub, sc, [m]) for m in msgs]
+    m = statuslib.msg_step
+    out += ["dev " + "|".join(["t:p-330", m([b"*TST?"]), m([b"*TST?;*ESR?"]), "t:c77:62726f6b656e", m([b"*OPC?;*TST?;*OPC?"]), "t:N", m([b"*TST?;SYST:ERR:ALL?"])]),
+            "dev " + "|".join([m([b"*ESE 1;FOO;*ESE 2"]), m([b"*ESE?;*ERR -200;*ESE?"]), m([b"*OPC;*OPC?;*IDN?"]), m([b"SYST:ERR:COUN?;:SYST:ERR:ALL?"])])]
     for cap in (0, 1, 2, 3, 4, 5, 6, 7, 8):
         out.append(treegen.case_line(str(cap), sub, sc, [b"A?;PRE;B?", b"B?;A?"]))
     return out
@@ -51,12 +57,18 @@ def generate(rng, tier):
         m = treegen.gen_message(rng, sub, nunits=rng.choice([1, 2, 3]), bad=0.0, args=False)
         for cap in range(0, 41):
             out.append(treegen.case_line(str(cap), sub, tg.scripts, [m]))
+    # the library's own handlers: every call of the device's error hook is counted
+    for _ in range(60 if tier == "quick" else 1000):
+        out.append(statuslib.gen_history(rng, rng.choice([4, 8, 16]), {"common": 4, "reg": 1, "fail": 2, "tst": 1.5, "cond": 0.3}))
     return out
 
 
 def harness_line(c): return c
 def case_of_line(l): return l
-def coq_term(c): return treegen.coq_term(c)
+def coq_term(c):
+    if c.startswith("dev "):      # the full-stack model only (the operation-level one is C13/C15/C16's)
+        return "run_dev2 " + coq_list([statuslib.step_to_coq2(s) for s in c.split(" ", 1)[1].split("|") if s])
+    return treegen.coq_term(c)
 
 
 def _calls(m):
@@ -66,6 +78,7 @@ def _calls(m):
 
 
 def obs(s):
+    if " q=" in s: return statuslib.obs_fields(s, {"q", "h"})
     out = []
     for m in s.split(" | "):
         f = m.split(" ")
@@ -77,6 +90,14 @@ def obs(s):
 def impl_oracle(c, r):
     if r is None: return "no result from harness"
     if r.startswith(("PANIC", "CRASH", "NOT-RUN", "HANG")): return "implementation panicked / died"
+    if c.startswith("dev "):
+        # independent of the model: the hook is called exactly once by a failed message and never otherwise
+        for step in r.split(" | "):
+            f = step.split(" ")
+            if len(f) < 3 or "h=" not in f[2]: continue
+            h = int(f[2].split("h=")[1].split(";")[0])
+            if h != (0 if f[0] in ("OK", "-") else 1): return "error hook called %d time(s) by a message with status %s" % (h, f[0])
+        return None
     for m in r.split(" | "):
         f = m.split(" ")
         if len(f) < 5: continue
@@ -87,13 +108,15 @@ def impl_oracle(c, r):
 
 
 def nontrivial(c, impl):
+    if c.startswith("dev "): return impl is not None and "E-" in impl
     return impl is not None and any(len(_calls(m)) >= 1 and c.count(" ") >= 4 for m in impl.split(" | ")) and b";" in unhex(c.split(" ")[4])
 
 
 def distribution(cases, impl):
-    d = {"messages": 0, "ok": 0, "failed": 0, "bounded_buffer_cases": sum(1 for c in cases if c.split(" ")[1] != "v"), "error_codes": {}}
+    d = {"messages": 0, "ok": 0, "failed": 0, "bounded_buffer_cases": sum(1 for c in cases if c.split(" ")[1] != "v" and not c.startswith("dev ")),
+         "contrib_device_histories": sum(1 for c in cases if c.startswith("dev ")), "error_codes": {}}
     for r in impl:
-        if not r: continue
+        if not r or " q=" in r: continue
         for m in r.split(" | "):
             d["messages"] += 1
             st = m.split(" ")[0]
